@@ -287,11 +287,13 @@ def url(r, escapes=True) -> dict:
         path = b"/" + b"/".join(segs)
         if r.random() < 0.2:
             path += b"/"
-    qk = r.choice(["none"] * 3 + ["kv", "kv", "empty", "esc"])
+    qk = r.choice(["none"] * 3 + ["kv", "kv", "empty", "esc", "ioc"])
     if qk == "none":
         query = None
     elif qk == "kv":
         query = b"&".join(bytes(r.choice(LOWER) for _ in range(r.randint(1, 4))) + b"=" + bytes(r.choice(LOWER + DIGITS) for _ in range(r.randint(0, 6))) for _ in range(r.randint(1, 3)))
+    elif qk == "ioc":
+        query = b"u=" + domain(r) + b"&i=" + ipv4(r) + r.choice([b"", b"&f=" + exe_name(r)])
     elif qk == "empty":
         query = b""
     else:
